@@ -840,7 +840,8 @@ static int restore_mapping (char **str, svalue_t * sv) {
         case '7':
         case '8':
         case '9':
-          if (!parse_numeric (&cp, c, &key))
+          /* the size pre-pass took everything up to the next ':' as this key: insist on the same extent */
+          if (!parse_numeric (&cp, c, &key) || cp[-1] != ':')
             goto key_numeral_error;
           break;
 
@@ -902,7 +903,7 @@ static int restore_mapping (char **str, svalue_t * sv) {
         case '7':
         case '8':
         case '9':
-          if (!parse_numeric (&cp, c, &value))
+          if (!parse_numeric (&cp, c, &value) || cp[-1] != ',')
             goto value_numeral_error;
           break;
 
@@ -1070,7 +1071,8 @@ static int restore_class (char **str, svalue_t * ret) {
         case '7':
         case '8':
         case '9':
-          if (parse_numeric (&cp, c, sv))
+          /* the size pre-pass took everything up to the next ',' as this element: insist on the same extent */
+          if (parse_numeric (&cp, c, sv) && cp[-1] == ',')
             sv++;
           else
             goto numeral_error;
@@ -1171,7 +1173,8 @@ static int restore_array (char **str, svalue_t * ret) {
         case '7':
         case '8':
         case '9':
-          if (parse_numeric (&cp, c, sv))
+          /* the size pre-pass took everything up to the next ',' as this element: insist on the same extent */
+          if (parse_numeric (&cp, c, sv) && cp[-1] == ',')
             sv++;
           else
             goto numeral_error;
